@@ -4,6 +4,7 @@ import (
 	"fmt"
 	"go/types"
 	"math/big"
+	"sort"
 	"strings"
 )
 
@@ -16,6 +17,7 @@ type Env struct {
 	old   *State // state at function entry / before the call
 	pkg   *types.Package
 	pkgPath string
+	dropQ bool   // hypothesis-position universal quantifiers evaluate to true (their instances are added per obligation)
 	inst  string // when set: hypothesis-position universal quantifiers are instantiated at this term
 	pol   int // +1: evaluating a proof goal positively, -1: negatively, 0: assumption / unknown
 	what  string
@@ -570,10 +572,12 @@ func (env *Env) evalCall(e CallE) *SV {
 			}
 			return ghostBool(and(rng, body))
 		}
+		if env.dropQ && e.Fn == "all" && env.pol < 0 {
+			return ghostBool("true")
+		}
 		if (e.Fn == "all" && env.pol > 0) || (e.Fn == "any" && env.pol < 0) {
 			// goal position: replace the bound variable by a fresh constant
 			sk := vc.freshS(SBV64, "sk_"+id.Name)
-			defer vc.instantiateHyps(sk)
 			body := env.with(id.Name, ghostBV(64, true, sk)).evalBool(e.Args[3])
 			rng := and(app("bvsle", env.toBV64(lo), sk), app("bvslt", sk, env.toBV64(hi)))
 			if e.Fn == "all" {
@@ -731,16 +735,18 @@ func hasQuant(e Expr) bool {
 	return false
 }
 
-// assumeClause assumes guard => e (e evaluated as a hypothesis). If e contains
-// a universal quantifier, a generator is recorded so that the hypothesis can be
-// instantiated at the skolem constants of later goals.
+// assumeClause assumes guard => e (e evaluated as a hypothesis). Universally
+// quantified parts of e are not emitted as quantifiers: a generator is
+// recorded, and instances are added for the index terms of each later
+// obligation (see instantiateFor), which keeps the queries quantifier free.
 func (env *Env) assumeClause(guard string, e Expr) {
 	vc := env.vc
 	h := env.withPol(-1)
-	vc.assume(implies(guard, h.evalBool(e)))
 	if !env.quantThroughMacros(e) {
+		vc.assume(implies(guard, h.evalBool(e)))
 		return
 	}
+	vc.assume(implies(guard, h.evalBool(e)))
 	snap := *h
 	snap.st = env.st.clone()
 	if env.old != nil {
@@ -751,7 +757,7 @@ func (env *Env) assumeClause(guard string, e Expr) {
 		names[k] = v
 	}
 	snap.names = names
-	vc.hyps = append(vc.hyps, func(inst string) string {
+	vc.addHyp(func(inst string) string {
 		i := snap
 		i.inst = inst
 		return implies(guard, i.evalBool(e))
@@ -787,15 +793,161 @@ func (env *Env) quantThroughMacros(e Expr) bool {
 	return found
 }
 
-// instantiateHyps adds the instances of all recorded quantified hypotheses at
-// the skolem constant sk.
-func (vc *VC) instantiateHyps(sk string) {
-	if vc.instantiating {
+
+type hyp struct {
+	gen func(inst string) string
+}
+
+func (vc *VC) addHyp(gen func(inst string) string) {
+	vc.hyps = append(vc.hyps, &hyp{gen: gen})
+}
+
+// specReads: spec functions that read a byte row at consecutive offsets
+// starting at their second argument.
+var specReads = map[string]int{"be16": 2, "be32": 4, "be64": 8, "le32": 4, "leb32_run": 6, "leb32_val": 5, "leb64_run": 11, "leb64_val": 10}
+
+// candidates collects (index term -> set of array terms) for every read of a
+// 64-bit-indexed array (row) in the formula.
+func (vc *VC) candidates(text string, out map[string]map[string]bool) {
+	if !strings.Contains(text, "(") {
 		return
+	}
+	defer func() { recover() }()
+	add := func(idx, arr string) {
+		m := out[idx]
+		if m == nil {
+			m = map[string]bool{}
+			out[idx] = m
+		}
+		m[arr] = true
+	}
+	var walk func(x *sexp)
+	walk = func(x *sexp) {
+		if x.list == nil {
+			return
+		}
+		if len(x.list) == 3 && x.list[0].list == nil && x.list[0].atom == "select" {
+			as := vc.arraySort(x.list[1])
+			if strings.HasPrefix(as, "(Array (_ BitVec 64) ") {
+				add(x.list[2].String(), vc.rowKey(x.list[1]))
+			}
+		}
+		if len(x.list) >= 3 && x.list[0].list == nil {
+			if w, ok := specReads[x.list[0].atom]; ok {
+				pos := x.list[2].String()
+				for c := 0; c < w; c++ {
+					add(bvAdd(pos, bvLit(64, int64(c))), vc.rowKey(x.list[1]))
+				}
+			}
+		}
+		for _, y := range x.list {
+			walk(y)
+		}
+	}
+	walk(parseSexp("(" + text + ")"))
+}
+
+// rowKey identifies the row an access goes to: stores into a row do not change
+// its identity for triggering purposes (store r i v reads like r elsewhere).
+func (vc *VC) rowKey(x *sexp) string {
+	for x.list != nil && len(x.list) == 4 && x.list[0].atom == "store" {
+		x = x.list[1]
+	}
+	return x.String()
+}
+
+// instantiateFor returns explicit instances of the recorded quantified
+// hypotheses for one goal: at the goal's skolem constants and at the byte
+// positions its specification functions read (be64(row, p) reads p..p+7).
+// The quantified hypotheses themselves stay in the context; the instances
+// only spare the solver the instantiations its matcher does not find.
+func (vc *VC) instantiateFor(texts ...string) []string {
+	if len(vc.hyps) == 0 || vc.instantiating {
+		return nil
 	}
 	vc.instantiating = true
 	defer func() { vc.instantiating = false }()
-	for _, g := range vc.hyps {
-		vc.assume(g(sk))
+	cands := map[string]bool{}
+	for _, t := range texts {
+		vc.specCandidates(vc.expandScalars(t, 3), cands)
 	}
+	var keys []string
+	for c := range cands {
+		keys = append(keys, c)
+	}
+	sort.Strings(keys)
+	var out []string
+	for _, h := range vc.hyps {
+		for _, c := range keys {
+			if len(out) > 300 {
+				break
+			}
+			inst := h.gen(c)
+			if inst != "true" {
+				out = append(out, "(assert "+inst+")")
+			}
+		}
+	}
+	return out
+}
+
+func (vc *VC) specCandidates(text string, out map[string]bool) {
+	if !strings.Contains(text, "(") {
+		return
+	}
+	defer func() { recover() }()
+	var walk func(x *sexp)
+	walk = func(x *sexp) {
+		if x.list == nil {
+			if strings.HasPrefix(x.atom, "sk_") && vc.sortOf[x.atom] == "(_ BitVec 64)" {
+				out[x.atom] = true
+			}
+			return
+		}
+		if len(x.list) >= 3 && x.list[0].list == nil {
+			if w, ok := specReads[x.list[0].atom]; ok && !strings.HasPrefix(x.list[1].String(), "(select Sin ") {
+				// (the input stream is immutable: no hypothesis speaks about it)
+				pos := x.list[2].String()
+				for c := 0; c < w; c++ {
+					out[bvAdd(pos, bvLit(64, int64(c)))] = true
+				}
+			}
+		}
+		for _, y := range x.list {
+			walk(y)
+		}
+	}
+	walk(parseSexp("(" + text + ")"))
+}
+
+// expandScalars expands define-fun names of scalar sort a few levels deep so
+// that the index terms and row terms hidden behind names become visible;
+// array-sorted names are kept (they identify rows / heaps).
+func (vc *VC) expandScalars(t string, depth int) string {
+	if depth == 0 || len(t) > 200000 {
+		return t
+	}
+	defer func() { recover() }()
+	var sb strings.Builder
+	var walk func(x *sexp, d int)
+	walk = func(x *sexp, d int) {
+		if x.list == nil {
+			if def, ok := vc.defOf[x.atom]; ok && d > 0 && len(def) < 4000 && !strings.HasPrefix(vc.sortOf[x.atom], "(Array") {
+				walk(parseSexp(def), d-1)
+				return
+			}
+			sb.WriteString(x.atom)
+			return
+		}
+		sb.WriteByte('(')
+		for i, y := range x.list {
+			if i > 0 {
+				sb.WriteByte(' ')
+			}
+			walk(y, d)
+		}
+		sb.WriteByte(')')
+	}
+	walk(parseSexp(t), depth)
+	return sb.String()
 }
